@@ -51,9 +51,14 @@ def sta_lta_clause(cl, rng, n, replay):
         N = int(rng.integers(400, 900))
         L = int(rng.integers(2, 7))
         kinds = [str(rng.choice(["quiet", "quiet", "spike", "dropout", "random"])) for _ in range(L)]
-        raws = [envelope_window(rng, N, dt, k) for k in kinds]
+        # the decision for a window depends on that window only: windows need not have the same length (whole recordings of different duration);
+        # in a quarter of the cases the first window is the shortest and bursts / drop-outs sit late in the longer ones
+        Ns = [N] * L
+        if j % 4 == 1 and L >= 2:
+            Ns = [N // 2] + [int(rng.integers(N, N + N // 2)) for _ in range(L - 1)]
+        raws = [envelope_window(rng, Ni, dt, k) for Ni, k in zip(Ns, kinds)]
         sta = float(rng.choice([0.2, 0.5, 1.0]))
-        lta = float(rng.choice([2.0, 3.0, N * dt * 0.9]))
+        lta = float(rng.choice([2.0, 3.0, min(Ns) * dt * 0.9]))
         mn, mx = float(rng.choice([0.1, 0.2, 0.5])), float(rng.choice([2.0, 2.5, 4.0]))
         comps = COMPS[j % len(COMPS)]
         scale = float(rng.choice([1.0, 1e-6, 1e-13, 1e5]))
@@ -62,7 +67,11 @@ def sta_lta_clause(cl, rng, n, replay):
         attach = j % 3
         hv = None
         f = np.geomspace(0.3, 20, 25)
-        bump = lambda: np.array([1 + 3 * np.exp(-(np.log(f / rng.uniform(0.8, 5)) / 0.3) ** 2) for _ in range(L)])
+        def bump():
+            A = np.array([1 + 3 * np.exp(-(np.log(f / rng.uniform(0.8, 5)) / 0.3) ** 2) for _ in range(L)])
+            if j % 2 == 1:
+                A[int(rng.integers(0, L))] = np.linspace(4, 1, len(f))        # a window whose curve has no peak: its masks follow the selection all the same
+            return A
         if attach == 1:
             hv = hvsrpy.HvsrTraditional(f, bump())
             hv.valid_window_boolean_mask[0] = False       # pre-existing state must be overwritten by the selection
@@ -148,7 +157,11 @@ def maxval_clause(cl, rng, n, replay):
             continue
         want = (Mn < thr).tolist()
         f = np.geomspace(0.3, 20, 25)
-        mk = lambda: hvsrpy.HvsrTraditional(f, np.array([1 + 3 * np.exp(-(np.log(f / rng.uniform(0.8, 5)) / 0.3) ** 2) for _ in range(L)]))
+        def mk():
+            A = np.array([1 + 3 * np.exp(-(np.log(f / rng.uniform(0.8, 5)) / 0.3) ** 2) for _ in range(L)])
+            if j % 4 >= 2:
+                A[int(rng.integers(0, L))] = np.linspace(4, 1, len(f))        # a window whose curve has no peak
+            return hvsrpy.HvsrTraditional(f, A)
         hist = []
         hv = [None, mk(), hvsrpy.HvsrAzimuthal([mk(), mk()], [10., 100.])][j % 3]
         # sequence of calls on the same HVSR object: the masks must equal the *last* selection
